@@ -313,9 +313,9 @@ Definition key_eqb (a b : key) : bool :=
   end.
 Definition key_mem (k : key) (l : list key) : bool := existsb (key_eqb k) l.
 
-(* leaves: LNum = int/float/bool, LNone = None, LStr = str, LOther = any other object (shown through its repr),
+(* leaves: LIntV / LBoolV = an int / bool (value known: its repr is computed), LNum = float (or another number; repr carried), LNone = None, LStr = str, LOther = any other object (shown through its repr),
    LClass = a class (title 'type', css class '<name>-class') *)
-Inductive lkind := LNum | LNone | LStr | LOther | LClass.
+Inductive lkind := LNum | LNone | LStr | LOther | LClass | LIntV (z : Z) | LBoolV (b : bool).
 Definition is_str (lk : lkind) : bool := match lk with LStr => true | _ => false end.
 
 (* tname = type(value).__name__, cname = camel_to_snake(tname, '-'), raw = the string itself (LStr),
@@ -466,16 +466,6 @@ Definition ordered_keys (incl excl : option (list key)) (present : list key) : l
   match excl with None => order0 | Some l => filter (fun k => negb (key_mem k l)) order0 end.
 
 Definition cname_of (v : pv) : str := match v with PLeaf _ _ c _ _ _ => c | PNode _ _ c _ _ => c end.
-Definition fmt_of (v : pv) : str := match v with PLeaf _ _ _ _ _ f => f | PNode _ _ _ f _ => f end.
-Definition is_simple (v : pv) : bool := match v with PLeaf LOther _ _ _ _ _ | PLeaf LClass _ _ _ _ _ => false | PLeaf _ _ _ _ _ _ => true | PNode _ _ _ _ _ => false end.
-(* make_title *)
-Definition title_of (v : pv) : str :=
-  match v with
-  | PLeaf LNum t _ _ _ _ | PLeaf LStr t _ _ _ _ | PLeaf LClass t _ _ _ _ => t
-  | PLeaf _ t _ _ _ _ => t ++ s_dots
-  | PNode _ t _ _ _ => t ++ s_dots
-  end.
-
 (* Python's repr of a str (unicode_repr), exact on Latin-1 strings, where printability is a finite table: the quote is a double
    quote when the string has an apostrophe and no double quote; the quote and the backslash are backslash-escaped; TAB LF CR are
    \t \n \r; the other C0/C1 controls, DEL, NBSP and the soft hyphen are \xNN.  (Strings with code points above 255 keep the
@@ -492,6 +482,36 @@ Definition py_repr (s : str) : str :=
   q :: flat_map (py_repr_char q) s ++ [q].
 Definition latin1 (s : str) : bool := forallb (fun c => c <? 256) s.
 
+Definition s_True := Eval compute in str_of "True".
+Definition s_False := Eval compute in str_of "False".
+Definition s_None := Eval compute in str_of "None".
+Definition s_ellipsis := Eval compute in str_of "...".
+(* repr of the leaves whose value the model knows *)
+Definition known_repr (lk : lkind) : option str :=
+  match lk with
+  | LIntV z => Some (dec_of_Z z)
+  | LBoolV b => Some (if b then s_True else s_False)
+  | LNone => Some s_None
+  | _ => None
+  end.
+(* utils.format(value, ..., max_str_len=256) as the tooltip calls it: repr; a string longer than 256 is cut and gets '...' *)
+Definition leaf_fmt (lk : lkind) (raw fmt : str) : str :=
+  match known_repr lk with
+  | Some r => r
+  | None => if is_str lk && latin1 raw
+            then py_repr (if (256 <? List.length raw)%nat then firstn 256 raw ++ s_ellipsis else raw)
+            else fmt
+  end.
+Definition fmt_of (v : pv) : str := match v with PLeaf lk _ _ raw _ f => leaf_fmt lk raw f | PNode _ _ _ f _ => f end.
+Definition is_simple (v : pv) : bool := match v with PLeaf LOther _ _ _ _ _ | PLeaf LClass _ _ _ _ _ => false | PLeaf _ _ _ _ _ _ => true | PNode _ _ _ _ _ => false end.
+(* make_title *)
+Definition title_of (v : pv) : str :=
+  match v with
+  | PLeaf LNum t _ _ _ _ | PLeaf LStr t _ _ _ _ | PLeaf LClass t _ _ _ _ | PLeaf (LIntV _) t _ _ _ _ | PLeaf (LBoolV _) t _ _ _ _ => t
+  | PLeaf _ t _ _ _ _ => t ++ s_dots
+  | PNode _ t _ _ _ => t ++ s_dots
+  end.
+
 Section TreeView.
   Variable o : opts.
 
@@ -506,7 +526,7 @@ Section TreeView.
           else match name with
                | Some _ => true
                | None => match lk with
-                         | LNum | LNone => false
+                         | LNum | LNone | LIntV _ | LBoolV _ => false
                          | LStr => negb (Z.of_nat (List.length raw) <=? o_max_len o)%Z
                          | LOther | LClass => true
                          end
@@ -589,7 +609,8 @@ Section TreeView.
 
   (* simple_value's value_repr: a string shorter than max_summary_len_for_str is shown through repr, a longer one as it is *)
   Definition leaf_text (lk : lkind) (raw rep : str) : str :=
-    if is_str lk then (if (Z.of_nat (List.length raw) <? o_max_len o)%Z then (if latin1 raw then py_repr raw else rep) else raw) else rep.
+    if is_str lk then (if (Z.of_nat (List.length raw) <? o_max_len o)%Z then (if latin1 raw then py_repr raw else rep) else raw)
+    else match known_repr lk with Some r => r | None => rep end.
 
   (* HtmlTreeView._render: summary + content (simple_value / complex_value) *)
   Fixpoint tv (css : list str) (scolor : option str * option str) (title : option str) (name : option key) (path : list key) (cl : option Z)
@@ -670,6 +691,7 @@ Definition d_key (t : tr) : option key :=
 Definition d_lkind (t : tr) : option lkind :=
   match t with
   | I 0%Z => Some LNum | I 1%Z => Some LNone | I 2%Z => Some LStr | I 3%Z => Some LOther | I 4%Z => Some LClass
+  | L [I 5%Z; I z] => Some (LIntV z) | L [I 6%Z; b] => do b' <- dbool b; Some (LBoolV b')
   | _ => None
   end.
 Fixpoint d_pv (fuel : nat) (t : tr) : option pv :=
